@@ -27,7 +27,7 @@ theorem C03_wf_of_rootH (ext : Ext) (fields : List Field) (rows : List SVal) (ar
     (h : toMarrow ext fields rows = .ok arrs) :
     arrs.length = fields.length ∧
     ∃ n : Nat, ∀ (j : Nat) (f : Field) (a : Arr), fields[j]? = some f → arrs[j]? = some a →
-      WF f a = true ∧ (decodeAll a).length = n := by
+      WFS f a = true ∧ (decodeAll a).length = n := by
   obtain ⟨root, hrun, rest, hba⟩ := Props.C03.toMarrow_split ext fields rows arrs h
   have hw := hwfb root hrun
   have hb := hshape root hrun
@@ -305,7 +305,7 @@ theorem C03_wf_of_WFH (ext : Ext) (fields : List Field) (rows : List SVal) (arrs
     (h : toMarrow ext fields rows = .ok arrs) :
     arrs.length = fields.length ∧
     ∃ n : Nat, ∀ (j : Nat) (f : Field) (a : Arr), fields[j]? = some f → arrs[j]? = some a →
-      WF f a = true ∧ (decodeAll a).length = n := by
+      WFS f a = true ∧ (decodeAll a).length = n := by
   have hfacts : ∀ root, runRows ext fields rows = .ok root →
       BuiltFor (.struct (Fields.ofList fields)) false root ∧ Sound root ∧ PX root := fun root hrun =>
     root_factsH ext fields rows root hschema (hwfh root hrun)
